@@ -447,8 +447,8 @@ where
                     let mut rep = Report::new();
                     let r = guarded(|| f(i, &mut rep));
                     if let Err(msg) = r {
-                        rep.inconclusive
-                            .push(format!("harness panic in item {}: {}", i, msg));
+                        // also remembered globally: callers may drop the Report of a nested par_run
+                        ESCAPED_PANICS.lock().unwrap().push((i, msg));
                     }
                     pdatastructs::verif::set_kick_budget(None);
                     rep.absorb_events();
@@ -476,6 +476,29 @@ where
         out.merge(r);
     }
     out
+}
+
+/// panics that escaped a work item (not caught by a property's own `guarded` call)
+static ESCAPED_PANICS: Mutex<Vec<(usize, String)>> = Mutex::new(Vec::new());
+
+/// Move escaped panics into the report: a panic raised inside the crate (location under the crate's
+/// sources) on an input the harness generated as valid is a violation of the property being
+/// checked; a panic in harness code makes the run inconclusive. Nothing is dropped silently.
+pub fn drain_escaped_panics(id: &str, rep: &mut Report) {
+    let v: Vec<(usize, String)> = std::mem::take(&mut *ESCAPED_PANICS.lock().unwrap());
+    for (item, msg) in v {
+        let in_crate = msg.contains("/repo/src/") || msg.contains("pdatastructs") || msg.contains("/src/filters/") || msg.contains("/src/hyperloglog/") || msg.contains("/src/topk/");
+        let in_harness = msg.contains("src/props/") || msg.contains("src/infra/") || msg.contains("src/main.rs");
+        if in_crate && !in_harness {
+            rep.violation(
+                format!("{}/panic/{}", id, panic_class(&msg)),
+                format!("a call into the crate panicked in work item #{}: {}", item, msg),
+                json!({"item": item, "panic": msg}),
+            );
+        } else {
+            rep.inconclusive.push(format!("harness panic in item {}: {}", item, msg));
+        }
+    }
 }
 
 // ---------------------------------------------------------------------------------------------
